@@ -52,6 +52,18 @@ fn k_havok_bit_field_5() { bit_field_contract::<5>(); }
 #[kani::unwind(18)]
 fn k_havok_bit_field_12() { bit_field_contract::<12>(); }
 
+//@unit props=C16 label=S tier=quick fn=havok::binary_tag_file_reader::HavokBinaryTagFileReader::read_bit_field bound="bit count 8 over 2 symbolic bytes (an exact multiple of 8: one byte, not two)"
+//@desc same contract at an exact byte multiple
+#[kani::proof]
+#[kani::unwind(18)]
+fn k_havok_bit_field_8() { bit_field_contract::<8>(); }
+
+//@unit props=C16 label=S tier=quick fn=havok::binary_tag_file_reader::HavokBinaryTagFileReader::read_bit_field bound="bit count 16 over 2 symbolic bytes (all of the data)"
+//@desc same contract when the field takes every remaining byte
+#[kani::proof]
+#[kani::unwind(18)]
+fn k_havok_bit_field_16() { bit_field_contract::<16>(); }
+
 //@unit props=C18 label=S tier=quick fn=havok::binary_tag_file_reader::HavokBinaryTagFileReader::read_packed_int bound="6 bytes, all contents (up to five continuation bytes)"
 //@desc a packed integer with many continuation bytes or one that runs off the end of the data must not crash the reader
 #[kani::proof]
